@@ -50,6 +50,8 @@ def poly(t):
                 k = _key(k1 + k2)
                 out[k] = out.get(k, 0) + v1 * v2
         return _norm(out)
+    if t[0] == 'un' and t[1] == 'Neg':
+        return _norm({k: -v for k, v in poly(t[2]).items()})
     return {(canon(t),): 1}
 
 
@@ -79,3 +81,43 @@ def loop_var_end(t):
         f = dict(rg[3])
         return strip_casts(f['start']), strip_casts(f['end'])
     return None
+
+
+def clamp_args(t):
+    """t == x.clamp(lo, hi) -> (x, lo, hi) cast-stripped, else None"""
+    t = strip_casts(t)
+    if t[0] == 'call' and t[1].split('::')[-1] == 'clamp' and t[1].startswith(('std::cmp::', 'core::cmp::')) and len(t[2]) == 3:
+        return tuple(strip_casts(a) for a in t[2])
+    return None
+
+
+def within_zero_to(v, is_len):
+    """loop variable v runs inside 0..L (L satisfying is_len): 0..L itself, or a sub-range cut with max(_, 0) / min(_, L) /
+    clamp(_, 0, L) on either side"""
+    r_ = loop_var_end(v)
+    if r_ is None:
+        return False
+    st_, en = r_
+
+    def lower_ok(t):
+        t = strip_casts(t)
+        if t[0] == 'const' and isinstance(t[1], int) and t[1] >= 0:
+            return True
+        c = clamp_args(t)
+        if c is not None and q.const_val(c[1]) is not None and q.const_val(c[1]) >= 0:
+            return True
+        if t[0] == 'call' and t[1].split('::')[-1] == 'max' and len(t[2]) == 2:
+            return any(lower_ok(a) for a in t[2])
+        return False
+
+    def upper_ok(t):
+        t = strip_casts(t)
+        if is_len(canon(t)):
+            return True
+        c = clamp_args(t)
+        if c is not None and is_len(canon(c[2])):
+            return True
+        if t[0] == 'call' and t[1].split('::')[-1] == 'min' and len(t[2]) == 2:
+            return any(upper_ok(a) for a in t[2])
+        return False
+    return lower_ok(st_) and upper_ok(en)
